@@ -4,6 +4,7 @@ from __future__ import annotations
 
 import ast
 
+from ..alpha import Loc
 from ..const import UNKNOWN, Folder
 from ..flow import Slicer, flat_guards, parent_map
 from ..model import FuncInfo, Model, dotted, norm, walk_no_nested, walk_with_lambdas
@@ -121,6 +122,66 @@ def check(model: Model, run: Run) -> None:
     # ------------------------------------------------------------------ R3 key tables injective
     run.rule('C13.R3', 'table-driven emitters do not map two entries that can occur in one object to the same JSON key (AttributeCollection.representation)', floor=15)
     _r3_keys(model, run, folder)
+
+    # pseudo-attributes (NO_GENERATION: treat-as-withdraw / discard markers, NEXT_HOP) share keys such as "error": they are
+    # rendered never, except NEXT_HOP when the caller asks for it
+    gj = model.func('exabgp.bgp.message.update.attribute.collection.AttributeCollection._generate_json')
+    run.analysed(gj)
+    gl = [lp for lp in walk_no_nested(gj.node) if isinstance(lp, ast.For)]
+    incl = gj.node.args.args[1].arg if len(gj.node.args.args) > 1 else '?'
+
+    def ev3(t: ast.AST, env: dict):
+        if isinstance(t, ast.BoolOp):
+            vals = [ev3(v, env) for v in t.values]
+            if any(v is None for v in vals):
+                return None
+            return all(vals) if isinstance(t.op, ast.And) else any(vals)
+        if isinstance(t, ast.UnaryOp) and isinstance(t.op, ast.Not):
+            v = ev3(t.operand, env)
+            return None if v is None else not v
+        if isinstance(t, ast.Attribute) and t.attr == 'NO_GENERATION':
+            return env['ng']
+        if isinstance(t, ast.Name) and t.id == incl:
+            return env['incl']
+        if isinstance(t, ast.Compare) and len(t.ops) == 1 and (dotted(t.comparators[0]) or '').endswith('CODE.NEXT_HOP') and isinstance(t.ops[0], (ast.Eq, ast.NotEq)):
+            return env['nh'] == isinstance(t.ops[0], ast.Eq)
+        return None
+
+    def skipped(body: list[ast.stmt], env: dict):
+        for st in body:
+            if isinstance(st, ast.Continue):
+                return True
+            if isinstance(st, ast.If):
+                v = ev3(st.test, env)
+                if v is None:
+                    if any(isinstance(x, ast.Attribute) and x.attr == 'NO_GENERATION' for x in ast.walk(st.test)):
+                        return None
+                    continue  # a test on something else (INTERNAL codes, representation): not what is judged here
+                r = skipped(st.body if v else st.orelse, env)
+                if r is not False:
+                    return r
+        return False
+
+    ok_ng = bool(gl)
+    detail = []
+    for ng_incl, nh in ((False, False), (False, True), (True, False), (True, True)):
+        r = skipped(gl[0].body, {'ng': True, 'incl': ng_incl, 'nh': nh}) if gl else None
+        want = not (ng_incl and nh)
+        detail.append('include_nexthop=%s next-hop=%s skipped=%s' % (ng_incl, nh, r))
+        ok_ng = ok_ng and r is want
+    run.check(ok_ng, gj.qualname, 'NO_GENERATION attributes are rendered only for NEXT_HOP with include_nexthop', gj.loc(), 'the treat-as-withdraw and discard markers both render under the key "error": an UPDATE carrying both (or any pseudo-attribute when withdraws are present) yields an object with a duplicate key; ' + '; '.join(detail))
+
+    # ------------------------------------------------------------------ R7 records are not torn by a slow consumer
+    run.rule('C13.R7', 'a record that could not be written whole to an API process goes back to the FRONT of its queue (flush_write_queue re-queues what it popped with appendleft only)', floor=1)
+    fw = model.func('exabgp.reactor.api.processes.Processes.flush_write_queue')
+    run.analysed(fw)
+    fwl = Loc(model, fw)
+    popped = fwl.from_value(lambda v: isinstance(v, ast.Call) and isinstance(v.func, ast.Attribute) and v.func.attr == 'popleft')
+    back, front = [], []
+    for c in walk_no_nested(fw.node):
+        if isinstance(c, ast.Call) and isinstance(c.func, ast.Attribute) and c.func.attr in ('append', 'appendleft', 'extend', 'insert') and c.args and fwl.depends_on(c.args[-1], popped):
+            (front if c.func.attr == 'appendleft' else back).append(c)
+    run.check(bool(popped) and len(front) >= 2 and not back, fw.qualname, 'unsent bytes go back to the front of the queue (%d sites, %d to the back)' % (len(front), len(back)), fw.loc(back[0]) if back else fw.loc(), 'after a partial write or EAGAIN the remainder of the record is appended BEHIND the events queued meanwhile: the API process reads the head of one event, another whole event, then the tail - neither line parses')
 
     # ------------------------------------------------------------------ R4 alphabet within the pipe codec
     run.rule('C13.R4', 'everything written to an API process is ASCII: Processes.write encodes with a strict ASCII codec, so json.dumps must keep ensure_ascii (default) and oneline() must confine its output to ASCII', floor=3)
